@@ -487,6 +487,10 @@ func E2EMain(args []string) {
 		childSeq()
 		return
 	}
+	if len(args) == 5 && args[0] == "hsc" {
+		childHsc(args[1:])
+		return
+	}
 	if len(args) == 4 && args[0] == "hs" {
 		childHs(args[1], args[2], args[3])
 		return
